@@ -387,6 +387,55 @@ Section InterpProofs.
   End HistoryProofs.
 End InterpProofs.
 
+(* ------------------------------------------------------------------ Part A2: lifting a specification *)
+(* How C18 composes with the functional properties: if the DEFAULT build meets a configuration-free
+   specification of an API (what C02–C04, C16 … establish), and the specification's domain is inside the
+   contract (no guarded test succeeds where it is defined), then EVERY build meets it on every history the
+   specification accepts. *)
+Definition all_some {A} (l : list (option A)) : bool := forallb (fun x => match x with Some _ => true | None => false end) l.
+Definition strip {A} (d : A) (l : list (option A)) : list A := map (fun x => match x with Some a => a | None => d end) l.
+
+Section LiftSpec.
+  Variables St Val Op : Type.
+  Variable body : Op -> prog St Val.
+  Variable spec : Op -> St -> option (St * outcome Val).
+
+  (* specification transcript of a history; stops at the first call outside the specification's domain *)
+  Fixpoint spec_history (h : list Op) (s : St) : St * list (option (outcome Val)) :=
+    match h with
+    | [] => (s, [])
+    | o :: h' => match spec o s with
+                 | None => (s, [None])
+                 | Some (s', r) => let '(s'', rs) := spec_history h' s' in (s'', Some r :: rs)
+                 end
+    end.
+
+  Hypothesis spec_in_contract : forall o s T r, types_ok T -> spec o s = Some r -> fires St Val (body o) s T = false.
+  Hypothesis default_meets_spec : forall o s T s' r, types_ok T -> spec o s = Some (s', r) ->
+    rst St Val (run St Val cfg_default (body o) s T) = s' /\ rout St Val (run St Val cfg_default (body o) s T) = r.
+  Hypothesis spec_no_crash : forall o s s' r, spec o s = Some (s', r) -> is_crash Val r = false.
+
+  Theorem every_build_meets_spec : forall h s T c,
+    types_ok T -> all_some (snd (spec_history h s)) = true ->
+    hst St Val (run_history St Val Op body c h s T) = fst (spec_history h s) /\
+    hout St Val (run_history St Val Op body c h s T) = strip OCrash (snd (spec_history h s)).
+  Proof.
+    induction h as [| o h IH]; intros s T c HT Ha; simpl in *.
+    - split; reflexivity.
+    - destruct (spec o s) as [[s' r] |] eqn:E; [| discriminate Ha].
+      pose proof (spec_in_contract o s T (s', r) HT E) as Hf.
+      destruct (run_sim St Val (body o) s T T c cfg_default HT HT (same_insts_refl T) Hf) as (A & B & C & _).
+      destruct (default_meets_spec o s T s' r HT E) as [D1 D2].
+      destruct (run St Val c (body o) s T) as [[s1 T1] r1]. unfold rst, rout, rty in *. simpl in *.
+      rewrite D1 in A. rewrite D2 in B. subst s1 r1.
+      rewrite (spec_no_crash o s s' r E).
+      specialize (IH s' T1 c C).
+      destruct (spec_history h s') as [s'' rs]. simpl in *. specialize (IH Ha).
+      destruct (run_history St Val Op body c h s' T1) as [[s2 T2] rs2]. unfold hst, hout in *. simpl in *.
+      destruct IH as [I1 I2]. subst. split; reflexivity.
+  Qed.
+End LiftSpec.
+
 (* ------------------------------------------------------------------ Part B: Array *)
 
 Lemma nth_error_in_range : forall (s : aseq) (j : Z),
@@ -508,9 +557,6 @@ Proof.
     end; inversion H; reflexivity.
 Qed.
 
-Definition all_some {A} (l : list (option A)) : bool := forallb (fun x => match x with Some _ => true | None => false end) l.
-Definition strip {A} (d : A) (l : list (option A)) : list A := map (fun x => match x with Some a => a | None => d end) l.
-
 (* histories: a history the specification accepts throughout is computed identically by every build *)
 Lemma array_history_meets_spec_gen : forall h s c T,
   all_some (snd (aspec_history h s)) = true ->
@@ -548,6 +594,20 @@ Qed.
 Lemma array_spec_history_in_contract : forall h s,
   all_some (snd (aspec_history h s)) = true -> afires h s = false.
 Proof. intros. unfold afires. apply array_spec_history_in_contract_gen. assumption. Qed.
+
+(* the Array API satisfies the three hypotheses of the lifting theorem *)
+Lemma array_lift_hypotheses :
+  (forall o s T r, types_ok T -> aspec o s = Some r -> fires aseq Z (abody o) s T = false) /\
+  (forall o s T s' r, types_ok T -> aspec o s = Some (s', r) ->
+     rst aseq Z (run aseq Z cfg_default (abody o) s T) = s' /\ rout aseq Z (run aseq Z cfg_default (abody o) s T) = r) /\
+  (forall o s s' r, aspec o s = Some (s', r) -> is_crash Z r = false).
+Proof.
+  repeat split.
+  - intros o s T r _ E. apply afires_char. apply aspec_defined. eauto.
+  - rewrite (array_meets_spec o s s' r cfg_default T H0). reflexivity.
+  - rewrite (array_meets_spec o s s' r cfg_default T H0). reflexivity.
+  - exact aspec_no_crash.
+Qed.
 
 Lemma types_ok_nil : types_ok [].
 Proof. constructor. Qed.
